@@ -30,8 +30,8 @@ TRUSTED = [
     "the OS file system, pathlib.glob, sqlite3, gzip and md5 are modelled (association lists, abstract checksum function), not verified",
 ]
 ASSUMPTIONS = [
-    "identifiers are non-empty, contain no '/', do not start with '.', and are lower-case ASCII [a-z0-9_.-] (the generated domain); "
-    "store suffixes are 'fasta', 'fa', 'json'; limit=None; single process",
+    "identifiers are non-empty, do not start with '.' or '/', and are lower-case ASCII [a-z0-9_.-] (the generated domain), plus the "
+    "spellings 'results/<id>', 'logs/<id>' (SQLite) and 'sub/<id>' (directory store); store suffixes are 'fasta', 'fa', 'json'; limit=None; single process",
     "identifiers with compression suffixes (.gz) occur only in the model-vs-code correspondence, not in the spec-level search",
     "after an operation that raises FileNotFoundError inside the drop loop the rest of that history is not compared "
     "(which members were already removed depends on the directory listing order)",
